@@ -18,9 +18,18 @@ def ev(e):
 
 
 class C07System(BuilderSystem):
-    def __init__(self, grid):
+    def __init__(self, grid, bounded=False):
         self.grid = grid
         self.cfg = {}
+        self.bounded = bounded
+
+    def setup(self, st):
+        if self.bounded:
+            # rejected calls become part of the history: the state must keep mirroring the *emitted* program
+            st.g.set_bounds("feed-rate", 0, 2000)
+            st.g.set_bounds("tool-power", 0, 100)
+            st.g.set_bounds("hotend-temperature", 0, 60)
+            st.g.set_bounds("axes", (-5, -5, -5), (5, 5, 5))
 
     def fresh(self):
         st = super().fresh()
@@ -30,6 +39,18 @@ class C07System(BuilderSystem):
     def ops(self, st):
         g0, g1, g2, g3 = self.grid
         ops = []
+        if self.bounded:
+            return [
+                ["set_feed_rate", [g2]], ["set_feed_rate", [5000]], ["set_tool_power", [g2]], ["set_tool_power", [g3]],
+                ["tool_on", ["clockwise", g2]], ["tool_on", ["ccw", g3]], ["power_on", ["dynamic", g3]], ["tool_off"], ["power_off"],
+                ["move", [], {"x": 1, "F": g2}], ["move", [], {"x": 2, "F": 5000}], ["move", [], {"x": 1, "F": g1, "S": g3}],
+                ["move", [], {"y": 1, "S": g2, "E": 2}], ["move", [], {"x": 99, "F": g1, "E": 7}], ["rapid", [], {"z": 1, "S": 500, "F": g2}],
+                ["probe", ["towards"], {"z": -1, "F": g2, "S": g3}], ["probe", ["away"], {"z": -9, "F": g1}],
+                ["move_absolute", [], {"x": 3, "f": g1, "s": 300}], ["set_axis", [], {"x": 77, "E": 3}], ["set_axis", [], {"E": 1}],
+                ["set_hotend_temperature", [g2]], ["set_hotend_temperature", [200]], ["halt", ["wait-for-hotend"], {"S": 200}],
+                ["halt", ["wait-for-hotend"], {"S": g1}], ["coolant_on", ["mist"]], ["coolant_off"], ["tool_change", ["manual", 1]],
+                ["set_distance_mode", ["relative"]], ["set_distance_mode", ["absolute"]], ["pause"],
+            ]
         for v in (g0, g2, g3):
             ops += [["set_feed_rate", [v]], ["set_tool_power", [v]]]
         for v in (g2, g0):
@@ -135,7 +156,8 @@ ASSUMPTIONS = ["not demanded: halt_mode, tool power after M05, the other API's s
 
 def systems(tier):
     grid = (0, 1, 50, 1200.5)
-    return [("full-api", C07System(grid), 3 if tier == "quick" else 4, None)]
+    return [("full-api", C07System(grid), 3 if tier == "quick" else 4, None),
+            ("bounded-with-rejections", C07System(grid, bounded=True), 3 if tier == "quick" else 4, None)]
 
 
 def run(tier, seed):
@@ -143,4 +165,8 @@ def run(tier, seed):
 
 
 def replay(body):
-    return replay_history(systems("thorough")[0][1], body)
+    label = body["replay"].get("config", "full-api")
+    for l, system, _, _ in systems("thorough"):
+        if l == label:
+            return replay_history(system, body)
+    raise SystemExit(f"unknown config {label}")
